@@ -1,19 +1,27 @@
 //! Reference models folded over the same chain as the real index.
 
+pub mod insc;
+pub mod runes;
 pub mod sats;
 
 use bitcoin::{Block, OutPoint, Txid};
+use ord::InscriptionId;
 
 #[derive(Clone, Default)]
 pub struct Model {
   pub sats: sats::RefSats,
+  pub insc: insc::RefInscriptions,
+  pub runes: runes::RefRunes,
   /// the blocks applied so far (index = height)
   pub blocks: Vec<Block>,
+  /// track inscriptions / runes (off for pure sat scenarios with duplicate txids)
+  pub track_inscriptions: bool,
+  pub track_runes: bool,
 }
 
 impl Model {
   pub fn new() -> Model {
-    Model::default()
+    Model { track_inscriptions: true, track_runes: true, ..Default::default() }
   }
 
   pub fn height(&self) -> u32 {
@@ -21,24 +29,46 @@ impl Model {
   }
 
   pub fn apply_block(&mut self, block: &Block) {
-    let _flows = self.sats.apply_block(block);
+    let height = self.sats.blocks;
+    // runes need the pre-block view of which outputs are taproot and when
+    // they were created; they read it from `self.sats` before it advances
+    if self.track_runes {
+      self.runes.apply_block(height, block, &self.sats);
+    }
+    let flows = self.sats.apply_block(block);
+    if self.track_inscriptions {
+      self.insc.apply_block(height, block, &flows);
+    }
     self.blocks.push(block.clone());
   }
 
   /// Rebuild from scratch on a (new) active chain, genesis first.
-  pub fn replay(chain: &[Block]) -> Model {
-    let mut m = Model::new();
+  pub fn replay(chain: &[Block], like: &Model) -> Model {
+    let mut m = Model { track_inscriptions: like.track_inscriptions, track_runes: like.track_runes, ..Default::default() };
+    m.runes.first_rune_height = like.runes.first_rune_height;
+    m.runes.network = like.runes.network;
     for b in chain {
       m.apply_block(b);
     }
     m
   }
 
-  pub fn is_interesting(&self, _outpoint: &OutPoint) -> bool {
-    false
+  pub fn inscriptions_in(&self, outpoint: &OutPoint) -> Vec<InscriptionId> {
+    match self.sats.utxos.get(outpoint) {
+      Some(out) => self.insc.in_ranges(&out.ranges),
+      None => Vec::new(),
+    }
   }
 
-  pub fn txid_is_interesting(&self, _txid: &Txid) -> bool {
-    false
+  pub fn is_interesting(&self, outpoint: &OutPoint) -> bool {
+    !self.inscriptions_in(outpoint).is_empty() || self.runes.balances.contains_key(outpoint)
+  }
+
+  pub fn txid_is_interesting(&self, txid: &Txid) -> bool {
+    self
+      .sats
+      .utxos
+      .range(OutPoint { txid: *txid, vout: 0 }..=OutPoint { txid: *txid, vout: u32::MAX })
+      .any(|(op, _)| self.is_interesting(op))
   }
 }
